@@ -27,6 +27,7 @@ func runC31(c *an.Ctx) {
 	if gc == nil {
 		return
 	}
+	commitDoneFallbackRule(c, gc)
 	// 1. the compared quantity is len(set)+1: a comparison, in any spelling, that is equivalent to
 	//    len(S) >= threshold - 1 for a map S
 	var cmp *ssa.BinOp
